@@ -4,6 +4,7 @@ package tb
 
 import (
 	"fmt"
+	"math"
 	"strings"
 	"testing"
 	"verif/h/vsel"
@@ -17,13 +18,14 @@ import (
 // Same rig as C07: real store + real manager + instrumented client, controlled bus.
 
 type c08Batch struct {
-	origin string
-	target string
-	edge   bool
-	pts    func(marker float64) data.Points
-	name   string
-	churn  int    // 1 = delete the grandchild GK (edge K1>GK), 2 = restore it
-	parent string // edge batches: the parent of the edge written ("" = the instance root)
+	origin  string
+	target  string
+	edge    bool
+	pts     func(marker float64) data.Points
+	name    string
+	churn   int    // 1 = delete the grandchild GK (edge K1>GK), 2 = restore it
+	parent  string // edge batches: the parent of the edge written ("" = the instance root)
+	refused bool   // a batch the store must refuse (NaN value): nobody may be told of it
 }
 
 func c08Alphabet() []c08Batch {
@@ -33,7 +35,7 @@ func c08Alphabet() []c08Batch {
 			o, tg := origin, target
 			out = append(out, c08Batch{o, tg, false, func(m float64) data.Points {
 				return data.Points{{Type: "value", Value: m, Origin: o}}
-			}, fmt.Sprintf("value on %s by %q", tg, o), 0, ""})
+			}, fmt.Sprintf("value on %s by %q", tg, o), 0, "", false})
 		}
 	}
 	// two-point batches and other fields, by a foreign author and by the client itself
@@ -41,14 +43,21 @@ func c08Alphabet() []c08Batch {
 		o := origin
 		out = append(out, c08Batch{o, "N1", false, func(m float64) data.Points {
 			return data.Points{{Type: "description", Text: fmt.Sprintf("d%v", m), Origin: o}, {Type: "arr", Key: "1", Value: m, Origin: o}}
-		}, fmt.Sprintf("description+arr[1] on N1 by %q", o), 0, ""})
+		}, fmt.Sprintf("description+arr[1] on N1 by %q", o), 0, "", false})
 		out = append(out, c08Batch{o, "K1", false, func(m float64) data.Points {
 			return data.Points{{Type: "description", Text: fmt.Sprintf("k%v", m), Origin: o}, {Type: "value", Value: m, Origin: o}}
-		}, fmt.Sprintf("description+value on K1 by %q", o), 0, ""})
+		}, fmt.Sprintf("description+value on K1 by %q", o), 0, "", false})
 	}
 	out = append(out, c08Batch{"other", "N1", true, func(m float64) data.Points {
 		return data.Points{{Type: "role", Text: fmt.Sprintf("r%v", m), Origin: "other"}}
-	}, `edge point role on N1 by "other"`, 0, ""})
+	}, `edge point role on N1 by "other"`, 0, "", false})
+	// batches the store refuses (a NaN value next to a regular point): a refused write is not a change
+	for _, tg := range []string{"N1", "K1"} {
+		tg := tg
+		out = append(out, c08Batch{origin: "other", target: tg, refused: true, pts: func(m float64) data.Points {
+			return data.Points{{Type: "value", Value: m, Origin: "other"}, {Type: "broken", Value: math.NaN(), Origin: "other"}}
+		}, name: fmt.Sprintf("value + NaN on %s by \"other\" (must be refused)", tg)})
+	}
 	// an edge point (not a tombstone) on the edge between the client's node and its child, and one level further down
 	out = append(out, c08Batch{origin: "other", target: "K1", edge: true, parent: "N1", pts: func(m float64) data.Points {
 		return data.Points{{Type: "role", Text: fmt.Sprintf("r%v", m), Origin: "other"}}
@@ -61,12 +70,15 @@ func c08Alphabet() []c08Batch {
 
 // classification by the statement
 func (b c08Batch) mustTell() bool {
+	if b.refused {
+		return false
+	}
 	inSubtree := b.target == "N1" || b.target == "K1" || b.target == "GK"
 	return inSubtree && b.origin != "" && b.origin != "N1"
 }
 
 func (b c08Batch) mustNotTell() bool {
-	return b.origin == "N1" || (b.origin == "" && b.target == "N1")
+	return b.refused || b.origin == "N1" || (b.origin == "" && b.target == "N1")
 }
 
 // churn: small alphabet around a grandchild that is deleted and restored (each of these restarts the
@@ -185,7 +197,12 @@ func c08Body(t *testing.T, depth int, order bool, churn ...bool) mc.Body {
 					}
 					return client.SendNodePoints(g.inst.Nc, b.target, pts, true)
 				}, early)
-				if err != nil {
+				if b.refused {
+					if err == nil {
+						out = mc.Outcome{Violation: "a batch with a NaN value was accepted (C05)", Key: "nan-accepted"}
+						return
+					}
+				} else if err != nil {
 					out = mc.Outcome{Violation: "legal write refused: " + err.Error(), Key: "legal-write-refused"}
 					return
 				}
@@ -301,7 +318,7 @@ func c08Body(t *testing.T, depth int, order bool, churn ...bool) mc.Body {
 				for i, b := range hist {
 					m := markers[i]
 					switch {
-					case b.mustNotTell() && b.target == "N1":
+					case !b.refused && b.mustNotTell() && b.target == "N1":
 						_ = data.MergePoints("N1", b.pts(m), &cfg) // its own writes: it knows them
 					case told[m] > 0 && b.edge:
 						par := root
@@ -353,7 +370,7 @@ func TestC08(t *testing.T) {
 			depth = 3
 		}
 		r.Explore(mc.Config{Name: fmt.Sprintf("batch-sequences-d%d", depth), Serial: true, SplitDepth: 1, SelfCheckEvery: 53,
-			Rule: fmt.Sprintf("all sequences of %d batches over a 29-batch alphabet: author in {\"\", the client's id, a child's id, a sibling client's id, another party} x target in {client node, child, grand-child, unrelated sibling}, one- and two-point batches, edge-point batches on the client node's own edge, on the edge to its child and on the edge to its grand-child; each batch carries one origin and a unique marker; Points/EdgePoints callbacks of the instrumented client compared with the accepted history (told exactly once and in order for foreign changes in the subtree, never for its own), and the folded configuration compared with Decode of the store's node", depth)},
+			Rule: fmt.Sprintf("all sequences of %d batches over a 31-batch alphabet: author in {\"\", the client's id, a child's id, a sibling client's id, another party} x target in {client node, child, grand-child, unrelated sibling}, one- and two-point batches, batches the store refuses (NaN), edge-point batches on the client node's own edge, on the edge to its child and on the edge to its grand-child; each batch carries one origin and a unique marker; Points/EdgePoints callbacks of the instrumented client compared with the accepted history (told exactly once and in order for foreign changes in the subtree, never for its own), and the folded configuration compared with Decode of the store's node", depth)},
 			c08Body(t, depth, false))
 		r.Explore(mc.Config{Name: "delivery-order-d2", Serial: true, SplitDepth: 1, DevBound: 1,
 			Rule: "the same alphabet, sequences of 2 batches, with one scheduling deviation (another pending delivery first, or the second batch written before the system is quiescent)"},
